@@ -126,11 +126,20 @@ def dependents(ctx, d1):
                 def views_pred(nd):
                     if storage.node_has(nd, _views_refreshed):
                         return True
-                    # `if hasattr(self, '_streams'): <refresh>` : when the attribute is absent no view exists
-                    if nd.kind == 'test' and isinstance(nd.ast, ast.If) and "hasattr(self, '_streams')" in src(nd.ast.test):
-                        return any(_views_refreshed(x) for b in nd.ast.body for x in ast.walk(b))
+                    # a loop over the view container whose every iteration re-points its view (no iteration <=> no view)
+                    if nd.kind == 'for' and isinstance(nd.ast, ast.For) and src(nd.ast.iter).startswith('self._streams'):
+                        return any(_views_refreshed(x) for st_ in nd.ast.body for x in ([st_] + ([st_.value] if isinstance(st_, ast.Expr) else [])))
                     return False
-                v_ok, wit = cfg.must_pass(node, views_pred)
+
+                def no_views_edge(a, b, label):
+                    # the branch of a `hasattr(self, '_streams')` test on which the attribute is absent: no view exists there
+                    if a.kind != 'test' or not isinstance(a.ast, ast.If) or label not in (True, False):
+                        return False
+                    t, neg = a.ast.test, False
+                    while isinstance(t, ast.UnaryOp) and isinstance(t.op, ast.Not):
+                        t, neg = t.operand, not neg
+                    return src(t) == "hasattr(self, '_streams')" and label == neg
+                v_ok, wit = cfg.must_pass(node, views_pred, edge_blocked=no_views_edge)
                 if not v_ok and storage.node_has(node, _views_refreshed):
                     v_ok = True
                 c_ok, wit2 = cfg.must_pass(node, lambda nd: storage.node_has(nd, _caches_refreshed))
